@@ -128,6 +128,11 @@ fn is_temp_name(name: &str) -> bool {
 /// Protocol rule on the kernel's event sequence: final (non-temp) file names appear only through rename and are
 /// never written afterwards. LMDB's files and directories are not part of the rule.
 fn check_event_protocol(rep: &mut RunReport, events: &[(PathBuf, String, u32)], scenario: &str) {
+    if std::env::var("XSIM_TRACE").is_ok() {
+        for (d, n, m) in events {
+            eprintln!("[trace] inotify {:?}/{n} mask={m:#x}", d.file_name().unwrap_or_default());
+        }
+    }
     for (dir, name, mask) in events {
         if mask & IN_Q_OVERFLOW != 0 {
             rep.count("probe:inotify_overflow", 1);
@@ -216,8 +221,19 @@ impl utils::verif::Hooks for Snapper {
         // kernel's coarse timestamps
         static T: std::sync::atomic::AtomicU64 = std::sync::atomic::AtomicU64::new(1_750_000_000_000);
         let t = T.fetch_add(1000, std::sync::atomic::Ordering::SeqCst);
+        // setting an mtime makes the kernel report IN_MODIFY for the file: events caused by the harness's own
+        // stamping are discarded so that the protocol rule only sees the code under test
+        let mut w = self.watcher.lock().unwrap();
+        let keep = w.as_mut().map(|w| {
+            w.drain();
+            w.events.len()
+        });
         if let Ok(f) = std::fs::OpenOptions::new().write(true).open(path) {
             let _ = f.set_modified(std::time::UNIX_EPOCH + Duration::from_millis(t));
+        }
+        if let (Some(w), Some(n)) = (w.as_mut(), keep) {
+            w.drain();
+            w.events.truncate(n);
         }
     }
 }
@@ -781,7 +797,7 @@ impl Engine for CrashEngine {
     fn budget(&self, _focus: &str, tier: Tier) -> Budget {
         match tier {
             Tier::Quick => Budget { runs: 4_000, chunk: 100, max_wall_s: 150 },
-            Tier::Thorough => Budget { runs: 80_000, chunk: 400, max_wall_s: 900 },
+            Tier::Thorough => Budget { runs: 80_000, chunk: 100, max_wall_s: 900 },
         }
     }
     fn gen_plan(&self, seed: u64, run: u64, _focus: &str, tier: Tier) -> Value {
